@@ -917,6 +917,19 @@ pub fn run(ctx: &mut Ctx) {
                 cases.push((g, format!("{what}, a gene and an OMIM disease on every term")));
             }
         }
+        // the structured shapes of up to 120 terms (chains, fans, ladders of diamonds, forked trunks, total orders) with
+        // the terms supplied descendants-first, so that in the written file every child record precedes its parents'
+        // records - the reader has to build the ancestor sets of inner multi-parent terms from such a file as well
+        for (f, what) in super::common::large_family() {
+            if f.terms.len() <= 120 {
+                let mut g = f.clone();
+                g.terms.reverse();
+                if let Some(last) = f.terms.last() {
+                    g.anns.push(Facts::ann(Kind::Gene, 11, "GENE1", Some(last.id)));
+                }
+                cases.push((g, format!("{what}, terms supplied in reverse (descendants first)")));
+            }
+        }
         {
             // sections beyond 64 KiB: 3000 leaves with 20-byte names (term section ~100 KiB) and five parents each
             // (parent section ~84 KiB), one gene per leaf (gene section ~78 KiB), an OMIM disease on every leaf
@@ -944,7 +957,7 @@ pub fn run(ctx: &mut Ctx) {
             f.anns.push(Facts::ann(Kind::Orpha, 78, "Orpha two", Some(1001)));
             cases.push((f, "3007 terms with 20-byte names and five parents each, 3000 genes: term, parent and gene sections beyond 64 KiB; an OMIM disease with 3000 terms".into()));
         }
-        ctx.space("sizes/writer-side", &format!("{} fact sets (a term with m parents and records with m-1, m, m+1 terms for m in {:?}; the same shape with the m-parent term obsolete and replaced for m = 31, 256 (thorough: 10, 30, 31, 32, 255, 256, 300); a chain of 300 with records on every term; sections beyond 64 KiB) via Builder (unflagged shapes), from_bytes(encoder), from_standard", cases.len(), sizes));
+        ctx.space("sizes/writer-side", &format!("{} fact sets (a term with m parents and records with m-1, m, m+1 terms for m in {:?}; the same shape with the m-parent term obsolete and replaced for m = 31, 256 (thorough: 10, 30, 31, 32, 255, 256, 300); a chain of 300 with records on every term; the structured shapes of up to 120 terms supplied descendants-first; sections beyond 64 KiB) via Builder (unflagged shapes), from_bytes(encoder), from_standard", cases.len(), sizes));
         for (f, what) in &cases {
             if !ctx.take() {
                 continue;
